@@ -201,7 +201,7 @@ def run(res, tier, seed, model_ok, search):
         newsp = None
         if rng.random() < 0.35:
             newsp = gen_order(rng, 99, nsel, dyadic)
-            newsp["status"] = rng.choice([None, None, "EXECUTABLE"])
+            newsp["status"] = rng.choice([None, None, "EXECUTABLE", "VIOLATION"])      # VIOLATION: a refused order that is placed again
             _, _, nb = build(mods, [newsp], True)
             new_order = nb[99]
             new_order.trade.strategy = strategy
@@ -224,7 +224,7 @@ def run(res, tier, seed, model_ok, search):
         # oracle
         ov = [v for v in views if v["sel"] == sel and v["id"] != excl]
         if newsp and newsp["sel"] == sel:
-            ov.append(raw_view(new_order, newsp))
+            ov.append(dict(raw_view(new_order, newsp), status=None, complete=False))      # the prospective order counts in full
         mw, ml, opens, spw, spl = exact_parts(ov)
         ties = sum(common.is_tie2(x) for x in (mw, ml, sum((t[0] for t in opens if t[0] < 0), Fraction(0)),
                                                 sum((t[1] for t in opens if t[1] < 0), Fraction(0))))
@@ -276,7 +276,7 @@ def run(res, tier, seed, model_ok, search):
         else:
             ntok2 = view_tok(new_order, newsp) if newsp else "-"
             mline = "mexp %s %d %d %s %s" % (otok, active, winners, str(excl) if excl else "-", ntok2)
-            mviews = [v for v in views if v["id"] != excl] + ([raw_view(new_order, newsp)] if newsp else [])
+            mviews = [v for v in views if v["id"] != excl] + ([dict(raw_view(new_order, newsp), status=None, complete=False)] if newsp else [])
         tie_m = 0
         per = {}
         for r in ({v["sel"] for v in views} | ({newsp["sel"]} if (newsp and not excl_is_new) else set())):
